@@ -73,6 +73,41 @@ def coherence(ctx, gt, ir, fault, raw):
     return again
 
 
+_GOOD = {}
+
+
+def after_rejection(ctx, gt, fault):
+    """A rejected file must leave nothing behind: an unrelated valid file
+    (two modules, the first one's entry point in the second) loads right
+    afterwards."""
+    if "raw" not in _GOOD:
+        ir = gt.IR()
+        m0 = gt.Module(name="a", ir=ir)
+        m1 = gt.Module(name="b", ir=ir)
+        bi = gt.ByteInterval(size=4, contents=b"abcd", section=gt.Section(
+            name="s", module=m1))
+        cb = gt.CodeBlock(offset=0, size=2, byte_interval=bi)
+        m0.entry_point = cb
+        gt.Symbol("x", payload=cb, module=m1)
+        ir.aux_data["t"] = gt.AuxData([cb.uuid], "sequence<UUID>")
+        _GOOD["raw"] = irio.save(ir)
+        _GOOD["entry"] = cb.uuid
+    ctx.count("valid_file_loaded_after_a_rejection")
+    try:
+        ir2 = irio.load(gt, _GOOD["raw"])
+        ok = ir2.modules[0].entry_point is not None and \
+            ir2.modules[0].entry_point.uuid == _GOOD["entry"]
+        why = "loaded without its entry point"
+    except Exception as e:
+        ok, why = False, "rejected with %s: %s" % (type(e).__name__,
+                                                   str(e)[:100])
+    if not ok:
+        raise Discrepancy(
+            "C17", "valid-file-after-rejected-file:%s" % fault.split(":")[0],
+            "a valid file loaded right after a rejected one (%s) is %s"
+            % (fault, why), {})
+
+
 def try_load(ctx, gt, raw, fault, header_rule=None):
     """Returns outcome string; raises Discrepancy on a violation."""
     ctx.count("cases")
@@ -92,6 +127,9 @@ def try_load(ctx, gt, raw, fault, header_rule=None):
     except Exception as e:
         ctx.count("outcome:rejected")
         ctx.count("rejected_with:" + type(e).__name__)
+        _GOOD["n"] = _GOOD.get("n", 0) + 1
+        if fault.startswith("structural") or _GOOD["n"] % 97 == 0:
+            after_rejection(ctx, gt, fault)
         if header_rule is not None:
             ctx.count("header_rule_checks")
             if not isinstance(e, ValueError):
